@@ -87,7 +87,10 @@ func (g *GoStore) HookSeen() []string {
 
 func (g *GoStore) applyHooks(n *nodeutil.Node) {
 	if g.hooked("OnChild") {
-		n.OnChild = func(n *nodeutil.Node, r node.ChildRequest) (node.Node, error) { g.called("OnChild"); return n.DoChild(r) }
+		n.OnChild = func(n *nodeutil.Node, r node.ChildRequest) (node.Node, error) {
+			g.called("OnChild")
+			return n.DoChild(r)
+		}
 	}
 	if g.hooked("OnGetChild") {
 		n.OnGetChild = func(n *nodeutil.Node, r node.ChildRequest) (node.Node, error) {
@@ -102,7 +105,10 @@ func (g *GoStore) applyHooks(n *nodeutil.Node) {
 		}
 	}
 	if g.hooked("OnDeleteChild") {
-		n.OnDeleteChild = func(n *nodeutil.Node, r node.ChildRequest) error { g.called("OnDeleteChild"); return n.DoDeleteChild(r) }
+		n.OnDeleteChild = func(n *nodeutil.Node, r node.ChildRequest) error {
+			g.called("OnDeleteChild")
+			return n.DoDeleteChild(r)
+		}
 	}
 	if g.hooked("OnField") {
 		n.OnField = func(n *nodeutil.Node, r node.FieldRequest, hnd *node.ValueHandle) error {
@@ -111,7 +117,10 @@ func (g *GoStore) applyHooks(n *nodeutil.Node) {
 		}
 	}
 	if g.hooked("OnGetField") {
-		n.OnGetField = func(n *nodeutil.Node, r node.FieldRequest) (val.Value, error) { g.called("OnGetField"); return n.DoGetField(r) }
+		n.OnGetField = func(n *nodeutil.Node, r node.FieldRequest) (val.Value, error) {
+			g.called("OnGetField")
+			return n.DoGetField(r)
+		}
 	}
 	if g.hooked("OnSetField") {
 		n.OnSetField = func(n *nodeutil.Node, r node.FieldRequest, v val.Value) error {
@@ -123,7 +132,10 @@ func (g *GoStore) applyHooks(n *nodeutil.Node) {
 		n.OnClearField = func(n *nodeutil.Node, r node.FieldRequest) error { g.called("OnClearField"); return n.DoClearField(r) }
 	}
 	if g.hooked("OnGetByKey") {
-		n.OnGetByKey = func(n *nodeutil.Node, r node.ListRequest) (node.Node, error) { g.called("OnGetByKey"); return n.DoGetByKey(r) }
+		n.OnGetByKey = func(n *nodeutil.Node, r node.ListRequest) (node.Node, error) {
+			g.called("OnGetByKey")
+			return n.DoGetByKey(r)
+		}
 	}
 	if g.hooked("OnGetByRow") {
 		n.OnGetByRow = func(n *nodeutil.Node, r node.ListRequest) (node.Node, []val.Value, error) {
